@@ -226,6 +226,10 @@ func (v *objectTreeValidator) validateChange(tree *Tree, aclList list.AclList, c
 }
 
 func ValidateRawTreeDefault(payload treestorage.TreeStorageCreatePayload, storageCreator TreeStorageCreator, aclList list.AclList) (objTree ObjectTree, err error) {
+	if payload.RootRawChange == nil {
+		// a peer's response that carries no root change
+		return nil, ErrEmptyChange
+	}
 	ctx := context.Background()
 	treeStorage, err := storageCreator.CreateStorageWithDeferredCreation(ctx, treestorage.TreeStorageCreatePayload{
 		RootRawChange: payload.RootRawChange,
@@ -264,6 +268,10 @@ func ValidateFilterRawTree(payload treestorage.TreeStorageCreatePayload, storage
 		return nil, list.ErrNoReadKey
 	}
 	aclList.RUnlock()
+	if payload.RootRawChange == nil {
+		// a peer's response that carries no root change
+		return nil, ErrEmptyChange
+	}
 	ctx := context.Background()
 	treeStorage, err := storageCreator.CreateStorageWithDeferredCreation(ctx, treestorage.TreeStorageCreatePayload{
 		RootRawChange: payload.RootRawChange,
